@@ -130,6 +130,21 @@ Proof.
   exfalso. eapply (mainloop_no_oof (allTypes inp) (allBodies inp) fuel); try exact Em; auto using init_inv; lia.
 Qed.
 
+(** observation (not a violation of C42, which allows an error): the massless-chain extension of growTree is a single
+    step; its "add another massless body and keep trying" branches are dead code, so two adjacent massless mobile bodies
+    always end in the "terminal massless body" error even when a valid tree exists *)
+Lemma massless_chain_extension_is_single_step B f J s added : chain B (S f) J s added = chain B 1 J s added.
+Proof. apply chain_one_step. Qed.
+
+Definition two_massless : input :=
+  {| in_types := [pinT; ballT];
+     in_bodies := [ {| bmass := 0; bbase := false |}; {| bmass := 0; bbase := false |}; {| bmass := 1; bbase := false |} ];
+     in_joints := [ {| ji_ty := 2; ji_par := 0; ji_chi := 1; ji_loop := false |};
+                    {| ji_ty := 2; ji_par := 1; ji_chi := 2; ji_loop := false |};
+                    {| ji_ty := 2; ji_par := 2; ji_chi := 3; ji_loop := false |} ] |}.
+Example two_massless_in_a_row_is_an_error : generate (defaultFuel two_massless) two_massless = Error (ETerminalMassless 1).
+Proof. vm_compute. reflexivity. Qed.
+
 (* ------------------------------------------------------------------ the DESIGN 7.19 witnesses: mustBeBaseBody *)
 (** level of input body b in the returned graph *)
 Definition levelOf (g : graph) (b : nat) : option nat := nth b (g_levels g) None.
@@ -139,13 +154,6 @@ Definition levelOf (g : graph) (b : nat) : option nat := nth b (g_levels g) None
 Definition base_honoured (inp : input) (g : graph) : Prop :=
   forall b, 1 <= b < g_nb g -> baseOf (allBodies inp) b = true -> levelOf g b = Some 1.
 
-Lemma must_be_base_refuted_loop_joint_only :
-  exists inp g, generate (defaultFuel inp) inp = Ok g /\ ~ base_honoured inp g.
-Proof.
-  exists witness_i. eexists. split. { vm_compute. reflexivity. }
-  intros H. specialize (H 2). vm_compute in H. assert (E : Some 4 = Some 1) by (apply H; auto). discriminate.
-Qed.
-
 Lemma must_be_base_refuted_massless_chain :
   exists inp g, generate (defaultFuel inp) inp = Ok g /\ ~ base_honoured inp g.
 Proof.
@@ -153,35 +161,18 @@ Proof.
   intros H. specialize (H 2). vm_compute in H. assert (E : Some 2 = Some 1) by (apply H; auto). discriminate.
 Qed.
 
-(** (8) mustBeBaseBody, restricted to the inputs that exclude pattern (i): the body has a joint to Ground that is not
-    a mustBeLoopJoint joint, or no joint to Ground at all (then step 1 adds one).  Then the body is at level 1 (inboard
-    body Ground), or it was mobilized outboard of a body that is not massful (pattern (ii), the massless-chain extension). *)
-Definition connectsGround (j : jin) (b : nat) : Prop :=
-  (ji_par j = 0 /\ ji_chi j = b) \/ (ji_par j = b /\ ji_chi j = 0).
-Definition base_joint_precondition (inp : input) (b : nat) : Prop :=
-  (exists j, In j (in_joints inp) /\ ji_loop j = false /\ connectsGround j b) \/
-  (forall j, In j (in_joints inp) -> ~ connectsGround j b).
-
+(** (8) mustBeBaseBody: a must-be-base body is at level 1 (inboard body Ground), or it was mobilized outboard of a body
+    that is not massful (pattern (ii), the massless-chain extension). *)
 Lemma must_be_base_honoured fuel inp g b : generate fuel inp = Ok g -> 1 <= b < g_nb g ->
-  baseOf (allBodies inp) b = true -> base_joint_precondition inp b ->
+  baseOf (allBodies inp) b = true ->
   exists m, In m (g_mobs g) /\ moutb m = b /\ levelOf g b = Some (mlevel m) /\
     ((mlevel m = 1 /\ minb m = 0) \/ Z.gtb (massOf (allBodies inp) (minb m)) 0 = false).
 Proof.
-  intros H Hb Hbase Hpre.
+  intros H Hb Hbase.
   destruct (generate_shape_ex _ _ _ H) as (Ej & J1 & s & Ep & Em & SH).
   rewrite (S_nb _ _ _ _ _ SH) in Hb. assert (b_pos : b <> 0) by lia.
   set (T := allTypes inp) in *. set (B := allBodies inp) in *.
-  assert (HQ : (exists jn, groundLink b (inputJoints inp) jn) \/ noLink b (inputJoints inp)).
-  { destruct Hpre as [(j & Hj & Hl & Hc)|Hno].
-    - left. apply (In_nth _ _ {| ji_ty := 0; ji_par := 0; ji_chi := 0; ji_loop := false |}) in Hj. destruct Hj as (jn & Hjn & Hnth).
-      exists jn. unfold groundLink, link, inputJoints. rewrite map_length.
-      rewrite (nth_indep _ jd (mkJoint {| ji_ty := 0; ji_par := 0; ji_chi := 0; ji_loop := false |})) by (rewrite map_length; auto).
-      rewrite map_nth, Hnth. simpl. auto.
-    - right. intros jn Hjn Hl. unfold inputJoints in Hjn. rewrite map_length in Hjn.
-      destruct (nth_map_mkJoint _ _ Hjn) as (x & Hx & E). unfold link, inputJoints in Hl. rewrite E in Hl. simpl in Hl.
-      apply (Hno x Hx). exact Hl. }
-  destruct (precheck_link T B b b_pos Hbase _ _ _ HQ Ep) as [_ HG].
-  assert (HG1 : exists jn, groundLink b J1 jn) by (apply HG; apply in_seq; lia).
+  assert (HG1 : exists jn, groundLink b J1 jn) by (eapply precheck_link; [exact b_pos|exact Hbase| |exact Ep]; apply in_seq; lia).
   assert (HS : Settled B b s).
   { eapply (mainloop_settles T B fuel b b_pos); [apply init_inv| |exact Em]. right. split; auto. intros m []. }
   destruct HS as [Hlev HGood].
@@ -207,11 +198,11 @@ Definition no_massless_neighbour (inp : input) (b : nat) : Prop :=
     (ji_chi j = b -> Z.gtb (massOf (allBodies inp) (ji_par j)) 0 = true).
 
 Lemma must_be_base_honoured_level1 fuel inp g b : generate fuel inp = Ok g -> 1 <= b < g_nb g ->
-  baseOf (allBodies inp) b = true -> base_joint_precondition inp b -> no_massless_neighbour inp b ->
+  baseOf (allBodies inp) b = true -> no_massless_neighbour inp b ->
   levelOf g b = Some 1.
 Proof.
-  intros H Hb Hbase Hpre Hnm.
-  destruct (must_be_base_honoured _ _ _ _ H Hb Hbase Hpre) as (m & Hin & Hout & Hlev & [[L1 _]|NM]); [congruence|].
+  intros H Hb Hbase Hnm.
+  destruct (must_be_base_honoured _ _ _ _ H Hb Hbase) as (m & Hin & Hout & Hlev & [[L1 _]|NM]); [congruence|].
   exfalso. destruct (generate_shape _ _ _ H) as (s & SH).
   destruct (sh_mobilizer_kinds _ _ _ _ _ SH m Hin) as (Hj & [(_ & _ & _ & Hor)|(k & K1 & _)]).
   2:{ rewrite (S_nb _ _ _ _ _ SH) in Hb. lia. }
@@ -269,9 +260,8 @@ Definition base_ok_input : input :=
      in_joints := [ {| ji_ty := 2; ji_par := 0; ji_chi := 1; ji_loop := false |};
                     {| ji_ty := 2; ji_par := 1; ji_chi := 2; ji_loop := false |} ] |}.
 Example base_ok_input_hyps : (exists g, generate (defaultFuel base_ok_input) base_ok_input = Ok g) /\
-  baseOf (allBodies base_ok_input) 2 = true /\ base_joint_precondition base_ok_input 2 /\ no_massless_neighbour base_ok_input 2.
+  baseOf (allBodies base_ok_input) 2 = true /\ no_massless_neighbour base_ok_input 2.
 Proof.
-  split. { eexists. vm_compute. reflexivity. } split; [reflexivity|]. split.
-  - right. intros j [<-|[<-|[]]]; unfold connectsGround; simpl; lia.
-  - intros j [<-|[<-|[]]]; simpl; split; intros; try lia; reflexivity.
+  split. { eexists. vm_compute. reflexivity. } split; [reflexivity|].
+  intros j [<-|[<-|[]]]; simpl; split; intros; try lia; reflexivity.
 Qed.
